@@ -9,14 +9,14 @@ def obligations(tier):
         for nstep in ((2,) if q else (2, 3)):
             R = 3 if q else 4
             obs += conc('%s_%dupd' % (nm, nstep), 'c18_list.c', ['updater', 'reader'], R, cflags=['-DHL=%d' % hl, '-DNSTEP=%d' % nstep],
-                        unwind=7, solo_order=[2, 1, 2, 1],
+                        unwind=3, unwind_fn={'^T2_run': 7}, solo_order=[2, 1, 2, 1],
                         desc='cds_%s: updater applies %d symbolic updates (add head / add tail / del+free after GP / replace) to a 2-node list while a reader '
                              'traverses with the _rcu iterator' % (nm, nstep),
                         wit=['updater added at head', 'updater deleted a node and freed it after the grace period', 'reader visited four nodes',
                              'reader visited one node'] + ([] if hl else ['updater replaced a node']))
         for B in ((1,) if q else (1, 2)):
             obs += conc('%s_2upd_tso%d' % (nm, B), 'c18_list.c', ['updater', 'reader'], 3, cflags=['-DHL=%d' % hl, '-DNSTEP=2'],
-                        unwind=7, tso=B, solo_order=[2, 1, 2, 1], desc='same under x86-TSO store buffers of depth %d' % B)
+                        unwind=3, unwind_fn={'^T2_run': 7}, tso=B, solo_order=[2, 1, 2, 1], desc='same under x86-TSO store buffers of depth %d' % B)
     return obs
 
 
